@@ -2842,6 +2842,22 @@ func (c *fctx) stmts(list []ast.Stmt) string {
 		if c.isListCopy(call) {
 			return c.copyStmt(nil, call, rest)
 		}
+		if fl, ok := call.Fun.(*ast.FuncLit); ok && len(call.Args) == 0 && fl.Type.Params.NumFields() == 0 && fl.Type.Results.NumFields() == 0 {
+			// `func() { … }()`: the body runs here, with its own defers
+			prevEnd, prevLoop, prevDefers := c.onEnd, c.loop, c.defers
+			var self func() string
+			self = func() string {
+				curEnd, curLoop, curDefers := c.onEnd, c.loop, c.defers
+				c.onEnd, c.loop, c.defers = prevEnd, prevLoop, prevDefers
+				out := c.stmts(rest)
+				c.onEnd, c.loop, c.defers = curEnd, curLoop, curDefers
+				return out
+			}
+			c.onEnd, c.loop, c.defers = self, nil, nil
+			code := c.stmts(fl.Body.List)
+			c.onEnd, c.loop, c.defers = prevEnd, prevLoop, prevDefers
+			return code
+		}
 		if c.matches(c.spec.Ignore, call) {
 			return c.stmts(rest)
 		}
